@@ -116,6 +116,9 @@ def check(ctx, rep):
         rep.ob("R-ATOMIC", "Zipper.handle_done: state read and written under the lock", all(q.has_lock(e, L) for e in state_evs), "zipper state is touched without self.lock", where_of(hd), trace_of(p))
         for e in res + exc + cxl:
             rep.ob("R-ATOMIC", "Zipper.handle_done: output resolved outside the lock", not q.has_lock(e, L), "%s with self.lock held" % fmt(e.d["func"]), where_of(e.fn, e.node), trace_of(p, e.seq))
+        rep.ob("R-TABLE", "Zipper.handle_done: every report first consults the zipper's own decision flag", atoms.get("done") is not None, "a path through handle_done never tests self.%s: whether the operation is already decided must be read from the flag that is written under the lock (the output future is resolved after the lock is released, so its done() still says 'undecided' while another report is being applied)" % DONE[2], where_of(hd), trace_of(p))
+        if atoms.get("done") is None:
+            continue
         if atoms.get("done") is True:
             cases.add("decided")
             rep.ob("R-TABLE", "Zipper: a report after the decision changes nothing", not (dec or slot or cnt or res or exc or cxl), "state or output changed after the decision", where_of(hd), trace_of(p))
@@ -253,6 +256,12 @@ def check(ctx, rep):
                 vals = [bm.get(n) for n in (fmi.params if fmi is not None else [])]
                 okm = fmi is not None and len(vals) >= 2 and vals[0] == q.result_of(zc[0]) and vals[1] == ("name", "list") and all(v is None or v == ("const", None) for v in vals[2:]) and "*" not in bm and "**" not in bm
             rep.ob("R-COMPOSE", "f_traverse maps the zipped tuple to a list", okm, "f_map called with %s" % ([fmt(a) for a in mc[0].d["args"]] if mc else None), where_of(ft), trace_of(p))
+    if "fn raised" not in kinds:
+        # fn is never called by f_traverse itself on any analysed path: it was handed to something else
+        handed = [e for p in ps for e in p.calls() if not e.d.get("user") and FN in e.d["args"] and e.fn is ft]
+        if handed:
+            h = handed[0]
+            rep.ob("R-COMPOSE", "f_traverse calls fn itself, inside its own exception handler", False, "fn is handed to %s instead of being called element by element: an iteration protocol in between (map(), a generator consumed by list()) takes a StopIteration raised by fn for the end of the input (or turns it into another exception), so the output is a shortened list instead of failing with fn's exception" % fmt(h.d["func"]), where_of(ft, h.node))
     rep.require(kinds == {"fn raised", "ok"}, "f_traverse: expected a normal path and a path where fn raises")
     fs = prog.fn("sequence:f_sequence")
     ps, it = ctx.paths(fs, None, depth=0)
@@ -306,4 +315,7 @@ def _weak_only(callee, ev, path):
 
 
 def _copy_only(callee, ev, path):
-    return callee.name in ("copy_exception",)
+    if callee.name in ("copy_exception",):
+        return True
+    # a private helper next to the caller (e.g. "a future failed with the exception being handled")
+    return callee.owner is None and callee.parent is None and callee.name.startswith("_") and ev.fn is not None and callee.module is ev.fn.module
